@@ -627,7 +627,7 @@ func genHistory(t *rapid.T, label string) history {
 		MaxParallel: rapid.SampledFrom([]int{1, 4}).Draw(t, label+".maxParallel"),
 	}
 	pause := func() int {
-		return rapid.SampledFrom([]int{0, 0, 0, 1, 1, 1, 4, 4, 12}).Draw(t, label+".pauseQ")
+		return rapid.SampledFrom([]int{0, 0, 0, 1, 1, 2, 4, 4, 12}).Draw(t, label+".pauseQ")
 	}
 	items := func(min int) []int {
 		n := rapid.IntRange(min, h.Items).Draw(t, label+".nItems")
@@ -650,7 +650,7 @@ func genHistory(t *rapid.T, label string) history {
 			h.Uninterested = append(h.Uninterested, x)
 		}
 	}
-	switch rapid.IntRange(0, 3).Draw(t, label+".template") {
+	switch rapid.SampledFrom([]int{0, 1, 2, 3, 4}).Draw(t, label+".template") {
 	case 0:
 		// everything is announced while the fetcher is suspended; nothing is announced afterwards
 		h.Template = "announce_only_while_suspended"
@@ -682,6 +682,32 @@ func genHistory(t *rapid.T, label string) history {
 				h.Ops = append(h.Ops, op{Kind: "interest", Items: []int{x}, On: rapid.Bool().Draw(t, label+".on"), PauseQ: pause()})
 			}
 		}
+	case 1:
+		// two groups of items are announced a little apart, the first group arrives, later another
+		// peer announces the still pending group (re-fetch driven by the timer only)
+		h.Template = "staggered_then_second_announcer"
+		h.Settle = true
+		h.Uninterested = nil
+		short := func() int { return rapid.SampledFrom([]int{0, 1, 1, 2, 2, 4}).Draw(t, label+".shortPauseQ") }
+		all := items(1)
+		cut := rapid.IntRange(0, len(all)-1).Draw(t, label+".cut")
+		if len(all) > 1 && cut == 0 {
+			cut = 1
+		}
+		first, second := all[:cut], all[cut:]
+		p1 := rapid.IntRange(0, h.Peers-1).Draw(t, label+".peer")
+		p2 := rapid.IntRange(0, h.Peers-1).Draw(t, label+".peer")
+		if len(first) > 0 {
+			h.Ops = append(h.Ops, op{Kind: "announce", Peer: p1, Items: first, PauseQ: short()})
+		}
+		h.Ops = append(h.Ops, op{Kind: "announce", Peer: p2, Items: second, PauseQ: short()})
+		if len(first) > 0 {
+			h.Ops = append(h.Ops, op{Kind: "received", Items: first, PauseQ: pause()})
+		}
+		if rapid.Bool().Draw(t, label+".extraPause") {
+			h.Ops = append(h.Ops, op{Kind: "resume", PauseQ: pause()})
+		}
+		h.Ops = append(h.Ops, op{Kind: "announce", Peer: (p2 + 1) % h.Peers, Items: second, PauseQ: pause()})
 	default:
 		h.Template = "free"
 		h.InitSuspended = rapid.IntRange(0, 3).Draw(t, label+".initSuspended") == 3
@@ -742,32 +768,20 @@ func TestC16Timeline(t *testing.T) {
 				t.Fatalf("%s\nhistory %d: %s", v.safety, i, describe(hs[i], v))
 			}
 		}
+		if overloaded {
+			st.Class("batch_canary_overslept", 1)
+		}
 		for i, v := range vs {
 			if v.timing != "" {
-				if overloaded {
-					st.Inconclusive()
-					continue
-				}
-				// timing policy: report only if the same history re-fails three times in a row
-				refails := 0
-				for k := 0; k < 3; k++ {
-					c2 := canary.Start()
-					r := run(hs[i])
-					over := c2.Stop() > canary.Tolerance
-					if r.safety != "" {
-						t.Fatalf("%s\nhistory %d: %s", r.safety, i, describe(hs[i], r))
-					}
-					if over || r.timing == "" {
-						break
-					}
-					refails++
-					v = r
-				}
-				if refails == 3 {
+				// timing policy: a suspect is reported only if the same history, run alone, re-fails three
+				// times in a row; runs during which the canary overslept are not counted either way
+				switch confirm(t, hs[i], i, &v) {
+				case confirmed:
 					t.Fatalf("%s (re-failed 3 times in a row)\nhistory %d: %s", v.timing, i, describe(hs[i], v))
+				case dismissed:
+					st.Class("timing_suspect_not_confirmed", 1)
 				}
 				st.Inconclusive()
-				st.Class("timing_suspect_not_confirmed", 1)
 				continue
 			}
 			cl := append([]string{"template_" + hs[i].Template, fmt.Sprintf("forget_%dA", hs[i].ForgetMult)}, v.classes...)
@@ -778,6 +792,38 @@ func TestC16Timeline(t *testing.T) {
 	})
 }
 
+type confirmation int
+
+const (
+	confirmed confirmation = iota
+	dismissed
+	undecided
+)
+
+func confirm(t *rapid.T, h history, idx int, v *verdict) confirmation {
+	refails := 0
+	for attempt := 0; attempt < 10 && refails < 3; attempt++ {
+		cn := canary.Start()
+		r := run(h)
+		over := cn.Stop() > canary.Tolerance
+		if r.safety != "" {
+			t.Fatalf("%s\nhistory %d: %s", r.safety, idx, describe(h, r))
+		}
+		if over {
+			continue
+		}
+		if r.timing == "" {
+			return dismissed
+		}
+		refails++
+		*v = r
+	}
+	if refails == 3 {
+		return confirmed
+	}
+	return undecided
+}
+
 // TestC16Regression: F3 (DESIGN.md §5) as a fixed history -- an item announced while the fetcher is
 // suspended and idle must be requested once the suspension ends.
 func TestC16Regression(t *testing.T) {
@@ -785,14 +831,17 @@ func TestC16Regression(t *testing.T) {
 		Template: "regression", Ops: []op{{Kind: "announce", Peer: 0, Items: []int{0}, PauseQ: 4}, {Kind: "resume"}}}
 	fails := 0
 	var last verdict
-	for k := 0; k < 4; k++ {
+	for attempt := 0; attempt < 12 && fails < 4; attempt++ {
 		cn := canary.Start()
 		v := run(h)
 		over := cn.Stop() > canary.Tolerance
 		if v.safety != "" {
 			t.Fatalf("%s\n%s", v.safety, describe(h, v))
 		}
-		if v.timing == "" || over {
+		if over {
+			continue
+		}
+		if v.timing == "" {
 			break
 		}
 		fails++
